@@ -127,6 +127,10 @@ def run_case(i, rng, rec, tier, state):
             want = COUNTS.get(fam, 145)
             rec.check("entry-counts", len(names) == want and len(set(names)) == len(names), f"{fam}/wrong-number-of-entries",
                       {"family": fam, "got": len(names), "want": want})
+            if fam.startswith("DOI:"):
+                cites = sum(1 for k in names if F.data[k].get("source") in SOURCE_FAMILY)
+                rec.check("entry-counts", cites == 133, f"{fam}/number-of-entries-citing-a-named-family-differs-from-reference",
+                          {"family": fam, "got": cites, "want": 133})
             it = list(iter(F))
             ok = [k for k, _ in it] == names
             same = ok
